@@ -85,6 +85,17 @@ VARIANTS = [
     # ---- C08 / C09 / C14 / C15
     ("C08", "fire", DG, "                        minval=self.min_pts[1],\n                        maxval=self.max_pts[1],\n                    ),\n                ]\n            )\n            xmax", "                        minval=self.min_pts[0],\n                        maxval=self.max_pts[1],\n                    ),\n                ]\n            )\n            xmax", 0),
     ("C08", "fire", DG, "return jnp.stack([xmin, xmax, ymin, ymax], axis=-1)", "return jnp.stack([xmin, ymin, xmax, ymax], axis=-1)", 0),
+    ("C08", "fire", DG, "t_dx = jnp.concatenate([t_, dx], axis=1)", "t_dx = jnp.concatenate([dx, t_], axis=1)", 0),
+    ("C08", "silent", DG, "omega = jnp.linspace(xmin, xmax, self.n, endpoint=False)[:, None]", "omega = jnp.expand_dims(jnp.linspace(xmin, xmax, self.n, endpoint=False), 1)", 0),
+    ("C08", "silent", DG, "omega = jnp.linspace(xmin, xmax, self.n, endpoint=False)[:, None]", "omega = (xmin + (xmax - xmin) * jnp.arange(self.n) / self.n)[:, None]", 0),
+    ("C08", "fire", DG, "omega = jnp.linspace(xmin, xmax, self.n, endpoint=False)[:, None]", "omega = ((xmax - xmin) * jnp.arange(self.n) / self.n)[:, None]", 0),
+    ("C14", "fire", DG, "return self, self.omega_border[None, None]  # shape is (1, 1, 2)", "return self, jnp.repeat(self.omega_border[None, None], 2, axis=0)", 0),
+    ("C14", "silent", DG, "return self, self.omega_border[None, None]  # shape is (1, 1, 2)", "return self, jnp.reshape(self.omega_border, (1, 1, 2))", 0),
+    ("C20", "fire", DG, "self.curr_idx + self.obs_batch_size, self.n, self._get_operands()", "self.curr_idx + 2 * self.obs_batch_size - 1, self.n, self._get_operands()", 0),
+    ("C16", "fire", SOLVE, "i, loss, params, data, _rar_step_true, _rar_step_false", "i + 1, loss, params, data, _rar_step_true, _rar_step_false", 0),
+    ("C16", "silent", SOLVE, "i, loss, params, data, _rar_step_true, _rar_step_false", "i=i, loss=loss, params=params, data=data, _rar_step_true=_rar_step_true, _rar_step_false=_rar_step_false", 0),
+    ("C17", "fire", RAR, "data.p_times.at[: data.nt_start].set(new_p_times),", "data.p_times.at[: data.n_start].set(new_p_times),", 0),
+    ("C13", "fire", LODE, "obs_slice=self.obs_slice_dict[i],", "obs_slice=self.obs_slice_dict[k],", 0),
     ("C09", "silent", DG, "        else:\n            n_eff = self.n\n\n        bstart = self.curr_omega_idx", "        else:\n            n_eff = self.n_start\n\n        bstart = self.curr_omega_idx", 0),
     ("C09", "silent", DG, "        n_start = n\n        p = None", "        n_start = n if n_start is None else n_start\n        p = None", 0),
     ("C09", "fire", DG, "subkey, domain, shape=(domain.shape[0],), replace=False, p=p", "subkey, domain, shape=(domain.shape[0],), replace=True, p=p", 0),
